@@ -61,7 +61,7 @@ class Checker:
         if line is None and node is not None:
             line = getattr(node, 'lineno', None)
             try:
-                line = self.src.orig_line(file, line)
+                line = self.src.orig_line_of(file, node)
             except Exception:
                 pass
         self.functions.add(f'{file}:{func}')
@@ -88,6 +88,21 @@ class Checker:
 
     def note(self, text):
         self.notes.append(text)
+
+    def import_from(self, run, prop, rules, as_rule):
+        """Runs another property's rule function on the same source and takes over the obligations of `rules` under
+        the id `as_rule` of this property (a property that relies on a mechanism decided elsewhere lists it as its own
+        obligation, so a defect in the mechanism is reported for every property it breaks)."""
+        sub = Checker(prop, self.src, self.tier)
+        run(sub)
+        n = 0
+        for o in sub.obs:
+            if o.rule in rules:
+                o2 = Ob(self.prop, as_rule, o.file, o.func, f'[{o.rule}] {o.key}', o.line, o.verdict, o.detail, o.witness, o.nontrivial, o.nf)
+                self.obs.append(o2)
+                self.functions.add(f'{o.file}:{o.func}')
+                n += 1
+        return n
 
     # -- results --------------------------------------------------------------
     def refutations(self):
